@@ -337,6 +337,13 @@ use std::collections::{hash_map, HashMap};
 use tokio::sync::{mpsc, oneshot};
 use vstd::std_specs::hash::*;"""
     with u.mod("agent_status_wrapper", uses=uses):
+        # every top-level const of the file (verbatim): an edit of a sliced arm that introduces a limit / threshold of its own is then judged
+        # by the arm's contract instead of failing to compile
+        seen_c = set()
+        for it_c in asw.index["items"]:
+            if it_c["kind"] == "const" and it_c["name"] not in seen_c and asw.has_item(it_c["path"]):
+                seen_c.add(it_c["name"])
+                u.take(asw, it_c["path"], "const")
         u.take(asw, "AgentStatusModule", "enum", keep_derive=("Clone", "Debug"))
         u.take_ext(asw, ["AgentStatusAction", "AgentStatusSharedState"], "vx_ext_status_actor", opaque=False, transparent=True,
                    uses="use crate::shared_state::agent_status_wrapper::AgentStatusModule;\nuse crate::proxy::proxy_summary::ProxySummary;\nuse crate::proxy_agent_shared::proxy_agent_aggregate_status::{ModuleState, ProxyConnectionSummary};\nuse tokio::sync::{mpsc, oneshot};")
